@@ -12,7 +12,10 @@ def run(ctx):
     wcases, prop_bad = [], []
     for i in range(n):
         nb = rc.gen_new_batch(r, canonical_ms=(i % 5 != 0))
-        out = rc.impl_write(rc.py_new_batch(nb))
+        # the batch must not depend on what the buffer already holds: every third batch is written
+        # behind leading bytes (e.g. an earlier batch of a record set)
+        lead = b"" if i % 3 else bytes(r.getrandbits(8) for _ in range(r.choice([1, 7, 61, 300])))
+        out = rc.impl_write(rc.py_new_batch(nb), lead)
         wcases.append((nb, out))
         # the property on the implementation: an independent decoder recovers records and parameters
         if out[0] != "ok":
